@@ -324,4 +324,25 @@ func runC01(c *Ctx) {
 		}
 	})
 	c.Min("C01-R7", 7)
+
+	// a rejected block (and any later block) must find the parent state exactly as it was: the cached parent tries are
+	// shared structures, so the trie's copy-on-write and canonical-shape discipline is part of this property as well
+	c.Borrow("C10", runC10, map[string]string{"C10-R2": "C01-R8", "C10-R3": "C01-R8"})
+
+	c.Rule("C01-R9", "caches consulted during execution cannot make the result depend on what was imported before", func() {
+		n := c.CacheReadThroughRule("C01-R9", map[string]bool{"core/state": true})
+		c.Ob("C01-R9", "read-through caches found in package core/state", "", n >= 1, fmt.Sprintf("%d", n))
+		// the code-size cache is content addressed: its key is the code hash (second parameter), never the address
+		cs := c.Fn("core/state:(*cachingDB).ContractCodeSize")
+		for _, call := range callSites(cs, `^Cache\.(Get|Add)$`) {
+			k := c.termOf(cs, call.Common().Args[1])
+			c.Ob("C01-R9", "cachingDB.ContractCodeSize keys its cache by the code hash (content addressed)", c.Position(call.Pos()), k == "Hash#1", calleeName(call.Common())+"("+k+", ...)")
+		}
+		cc := c.Fn("core/state:(*cachingDB).ContractCode")
+		for _, call := range callSites(cc, `^Database\.Node$`) {
+			k := c.termOf(cc, call.Common().Args[1])
+			c.Ob("C01-R9", "cachingDB.ContractCode reads the blob stored under the code hash", c.Position(call.Pos()), k == "Hash#1", "Node("+k+")")
+		}
+	})
+	c.Min("C01-R9", 5)
 }
